@@ -1815,9 +1815,11 @@ class InTablePhase(Phase):
     def startTagOther(self, token):
         self.parser.parseError("unexpected-start-tag-implies-table-voodoo", {"name": token["name"]})
         # Do the table magic!
+        previous = self.tree.insertFromTable
         self.tree.insertFromTable = True
-        self.parser.phases["inBody"].processStartTag(token)
-        self.tree.insertFromTable = False
+        result = self.parser.phases["inBody"].processStartTag(token)
+        self.tree.insertFromTable = previous
+        return result
 
     def endTagTable(self, token):
         if self.tree.elementInScope("table", variant="table"):
@@ -1841,9 +1843,11 @@ class InTablePhase(Phase):
     def endTagOther(self, token):
         self.parser.parseError("unexpected-end-tag-implies-table-voodoo", {"name": token["name"]})
         # Do the table magic!
+        previous = self.tree.insertFromTable
         self.tree.insertFromTable = True
-        self.parser.phases["inBody"].processEndTag(token)
-        self.tree.insertFromTable = False
+        result = self.parser.phases["inBody"].processEndTag(token)
+        self.tree.insertFromTable = previous
+        return result
 
     startTagHandler = _utils.MethodDispatcher([
         ("html", Phase.startTagHtml),
